@@ -398,4 +398,15 @@ def run(ctx, lean_ok):
                 ctx.violation('py-ne-fortran:cubic_roots', 'the two cubic solvers return different root sets on a cubic with well separated roots',
                               {'coefficients': p.tolist(), 'python': [str(z) for z in py], 'fortran': [str(z) for z in f]})
         F.close()
+    # floors: every regime branch named in the quantifier must have been hit
+    need = {'us_sphere:Nd0': 5, 'us_sphere:Nd1': 5, 'us_sphere:Nd2': 5, 'us_sphere:Nd3': 5, 'us_sphere:Nd4': 3,
+            'xfer_clift:Re0': 5, 'xfer_clift:Re1': 5, 'xfer_clift:Re2': 5, 'xfer_clift:Re3': 5,
+            'omega:>0.49': 20, 'omega:<=0.49': 20, 'cubic_roots:real3': 20, 'cubic_roots:real1': 20}
+    for sub, n_ in need.items():
+        got = sum(v for k, v in ctx.hist.items() if k.startswith(sub))
+        ctx.oblige('coverage floor: branch %s hit at least %d times (got %d)' % (sub, n_, got), got >= n_)
+    for fn in ('us_ellipsoid', 'particle_shape'):
+        for h in ('H0', 'H1', 'H2'):
+            got = sum(v for k, v in ctx.hist.items() if k.startswith(fn + ':' + h))
+            ctx.oblige('coverage floor: %s band %s hit (got %d)' % (fn, h, got), got >= 1)
     ctx.notes.append('worst Python-vs-Fortran relative difference per routine: %r' % {k: float('%.3g' % v) for k, v in worst.items()})
